@@ -454,20 +454,19 @@ Definition detect_attrs (ra sn : envv) : amap :=
 
 Definition detect (ra sn : envv) : resource := mk_res (detect_attrs ra sn) [].
 
-(* ---- Resource::Create(attributes, schema_url); None = the call throws (nostd::get<std::string> on a
-   process.executable.name that is not a string) *)
-Definition create (ra sn : envv) (attrs : amap) (schema : bytes) : option resource :=
+(* ---- Resource::Create(attributes, schema_url).  The executable name is used for the default service name
+   only when it holds a string (repaired in eff8d52; before, any other value type made Create throw). *)
+Definition create (ra sn : envv) (attrs : amap) (schema : bytes) : resource :=
   let r := merge (merge default_resource (detect ra sn)) (mk_res attrs schema) in
   match lookup (nb c18_key_service_name) (r_attrs r) with
-  | Some _ => Some r
+  | Some _ => r
   | None =>
-      match lookup (nb c18_key_process_executable_name) (r_attrs r) with
-      | None => Some (mk_res (map_set (r_attrs r) (nb c18_key_service_name) (VStr (nb c18_unknown_service))) (r_schema r))
-      | Some (VStr exe) =>
-          Some (mk_res (map_set (r_attrs r) (nb c18_key_service_name)
-                                (VStr (nb c18_unknown_service ++ nb c18_unknown_service_sep ++ exe))) (r_schema r))
-      | Some _ => None
-      end
+      let default_service_name :=
+          match lookup (nb c18_key_process_executable_name) (r_attrs r) with
+          | Some (VStr exe) => nb c18_unknown_service ++ nb c18_unknown_service_sep ++ exe
+          | _ => nb c18_unknown_service
+          end in
+      mk_res (map_set (r_attrs r) (nb c18_key_service_name) (VStr default_service_name)) (r_schema r)
   end.
 
 (* ---- a store of resources driven by a script (so that "operands unchanged" is observable) *)
@@ -476,7 +475,7 @@ Inductive rop :=
 | RMerge (i j : nat)                                        (* store[i].Merge(store[j]) *)
 | RCreate (attrs : list (bytes * value)) (schema : bytes).  (* Resource::Create *)
 
-(* None entries: the operation threw / an operand was missing *)
+(* None entries: an operand of a merge was missing *)
 Definition store := list (option resource).
 
 Definition rstep (ra sn : envv) (st : store) (op : rop) : store :=
@@ -486,7 +485,7 @@ Definition rstep (ra sn : envv) (st : store) (op : rop) : store :=
                          | Some (Some a), Some (Some b) => Some (merge a b)
                          | _, _ => None
                          end
-         | RCreate attrs schema => create ra sn (map_of_list attrs) schema
+         | RCreate attrs schema => Some (create ra sn (map_of_list attrs) schema)
          end].
 Definition run_rops (ra sn : envv) (ops : list rop) : store := fold_left (rstep ra sn) ops [].
 
